@@ -164,6 +164,7 @@ func checkC02(w *World) {
 		return
 	}
 	pc, why := w.predicateContext(h.Fn, r)
+	var truthRes ssa.Value // the predicate value inside a truth helper, when the handler delegates the decision
 	if pc == nil {
 		w.undecided(P, "R02.1", "per-candidate context", h.Fn.Pos(), why)
 	} else {
@@ -190,9 +191,41 @@ func checkC02(w *World) {
 		})
 		w.check(P, "R02.1", "predicate expression evaluated in the per-candidate context", pc.Alloc.Pos(), evalInCtx, fmt.Sprintf("%v", evalInCtx))
 
+		// the decision may be delegated to a truth helper of the package that receives the predicate value and the
+		// candidate's index: then the comparison and the conversions are looked for there
+		truthFn, idxBase, idxOff0 := h.Fn, pc.Idx, int64(0)
+		if pc.Eval != nil {
+			for _, rr := range referrers(pc.Eval) {
+				ex, ok := rr.(*ssa.Extract)
+				if !ok || ex.Index != 0 {
+					continue
+				}
+				for _, r2 := range referrers(ex) {
+					c, ok := r2.(*ssa.Call)
+					if !ok {
+						continue
+					}
+					t := staticCallee(c)
+					if t == nil || fnPkgKey(t) != "exec" || t == r.ExecContext || len(t.Blocks) == 0 {
+						continue
+					}
+					for k, a := range c.Call.Args {
+						if a != ssa.Value(ex) || k >= len(t.Params) {
+							continue
+						}
+						for j, a2 := range c.Call.Args {
+							if off, ok := intOffset(a2, pc.Idx); ok && j < len(t.Params) && j != k {
+								truthFn, idxBase, idxOff0 = t, t.Params[j], off
+								truthRes = t.Params[k]
+							}
+						}
+					}
+				}
+			}
+		}
 		// R02.2
 		n22 := 0
-		allInstrs(h.Fn, func(in ssa.Instruction) {
+		allInstrs(truthFn, func(in ssa.Instruction) {
 			bo, ok := in.(*ssa.BinOp)
 			if !ok || !isCmpOp(bo.Op) {
 				return
@@ -222,7 +255,8 @@ func checkC02(w *World) {
 				c, ok := x.(*ssa.Convert)
 				return ok && isFloatToInt(c)
 			})
-			off, offOK := intOffset(idxSide, pc.Idx)
+			off, offOK := intOffset(idxSide, idxBase)
+			off += idxOff0
 			good := floatCmp && !truncates && bo.Op == token.EQL && offOK && off == 1
 			w.check(P, "R02.2", "numeric predicate comparison", bo.Pos(), good, fmt.Sprintf("compared as float64: %v; predicate value truncated to an integer: %v; operator %s; index side = i + %d (recognised %v, must be i + 1)", floatCmp, truncates, bo.Op, off, offOK))
 		})
@@ -261,6 +295,9 @@ func checkC02(w *World) {
 			if ex, ok := rr.(*ssa.Extract); ok && ex.Index == 0 {
 				res = ex
 			}
+		}
+		if truthRes != nil {
+			res = truthRes
 		}
 		if res == nil {
 			w.undecided(P, "R02.5", "predicate truth", h.Fn.Pos(), "result of the predicate expression not found")
